@@ -85,10 +85,13 @@ def oracle(chk, case, specs, obs, failing, oserr, builds_on=True):
         if dep_failed and s.name in started:
             chk.violation("C13 no benchmark depending on a failed build is started", dict(case, run=s.name), "not started", "started")
             ok = False
-        if dep_failed and obs.states[s.name]["completed"] != 0:
-            chk.violation("C13 a run depending on a failed build records nothing", dict(case, run=s.name), 0, obs.states[s.name]["completed"])
+        before = obs.loaded.get(s.name, (0, 0))[0]       # recorded by an earlier session
+        if dep_failed and obs.states[s.name]["completed"] != before:
+            chk.violation("C13 a run depending on a failed build records nothing", dict(case, run=s.name), before, obs.states[s.name]["completed"])
             ok = False
-    any_failed_dep = any(any((b in failing or b[0] in failing or b in oserr) for b in needs(s)) for s in specs) and builds_on
+    # (a run already complete when the session starts needs nothing, so its builds are not run at all)
+    any_failed_dep = any(any((b in failing or b[0] in failing or b in oserr) for b in needs(s)) for s in specs
+                         if obs.loaded.get(s.name, (0, 0))[0] < s.N) and builds_on
     if any_failed_dep and obs.result is not False and "-f" not in case.get("argv", []):
         chk.violation("C13 a session with runs given up because of a failed build fails", case, False, obs.result)
         ok = False
@@ -114,7 +117,21 @@ def run(chk):
             seed = rng.randint(0, 10 ** 6)
             case = dict(specs=[s.describe() for s in specs], failing=failing_rc, oserror=oserr, argv=argv, scheduler=sched, seed=seed)
             f = os.path.join(d, "c13.data")
+            if i % 3 == 2:
+                # history: an earlier session (all builds succeed) interrupted at a random process start leaves runs partially
+                # recorded; builds are per session, so the session under test has to build again before it starts them
+                for s_ in specs:
+                    s_.N = rng.randint(2, 3)
+                cut = rng.randint(1, 2 + sum(s_.N for s_ in specs) // 2)
+                prior = mh.run_impl(specs, f, rng.choice(["batch", "round-robin", "random"]), argv, [], seed=seed + 1, interrupt_at=cut)
+                case["earlier_session_interrupted_at_start"] = cut
+                case["specs"] = [s_.describe() for s_ in specs]
+                chk.count("histories_with_interrupted_earlier_session")
+            if os.path.exists(f):
+                shutil.copy(f, os.path.join(d, "ctl.data"))      # the control session starts from the same recorded state
             obs = mh.run_impl(specs, f, sched, argv, failing_rc, seed=seed, build_oserror=oserr)
+            if i % 3 == 2:
+                chk.count("histories_partially_recorded_runs", sum(1 for s_ in specs if 0 < obs.loaded.get(s_.name, (0, 0))[0] < s_.N))
             if isinstance(obs.result, str):
                 chk.violation("C13 a session with failing builds ends without an exception", case, "no exception", "%s %r" % (obs.result, obs.ses.exc))
                 continue
